@@ -396,4 +396,120 @@ theorem sortagg_nokeys_is_rowpath (aggs : List XAgg) (Xs : List Chunk) (r : Row)
   simp [rowPathVal, List.map_map, Function.comp]
 
 
+theorem haInsert_eq_gInsert (aggs : List XAgg) (k : List Val) (r : Row) (m : List (List Val × List AggState)) :
+    haInsert aggs k r m = gInsert (appendRow aggs) (initStates aggs) k r m := by
+  induction m with
+  | nil => rfl
+  | cons e es ih =>
+    obtain ⟨k', s⟩ := e
+    simp only [haInsert, gInsert, ih]
+
+/-- `HashAggExecutor`: one output row per distinct key, in first-occurrence order, holding the
+ROW-PATH value of every aggregate over exactly the rows of that group in input order. -/
+theorem hashagg_groupwise (ks : List (Row → Val)) (aggs : List XAgg) (Xs : List Chunk) :
+    flat (hashAgg ks aggs Xs) =
+      (dedup ((flat Xs).map (keyOf ks))).map (fun k =>
+        k ++ aggs.map (fun a => rowPathVal a.kind ((groupRows ks k (flat Xs)).map a.arg))) := by
+  unfold hashAgg
+  rw [flat_emit]
+  have h1 : (flat Xs).foldl (fun m r => haInsert aggs (keyOf ks r) r m) [] =
+      (flat Xs).foldl (fun m r => gInsert (appendRow aggs) (initStates aggs) (keyOf ks r) r m) [] := by
+    congr 1; funext m r; exact haInsert_eq_gInsert aggs _ r m
+  have h2 := gBuild_eq (appendRow aggs) (initStates aggs) (keyOf ks) (flat Xs) []
+  simp only [List.map_nil, dedup, List.nil_append] at h2
+  rw [h1, h2, List.map_map]
+  apply List.map_congr_left
+  intro k _
+  simp only [Function.comp]
+  congr 1
+  unfold initStates groupRows
+  rw [foldl_appendRow, List.map_map]
+  apply List.map_congr_left
+  intro a _
+  rfl
+
+/-- hence hash aggregation = the spec's GROUP BY for COUNT / COUNT(*) / MIN / MAX (list equality). -/
+theorem hashagg_eq_spec_partial (ks : List (Row → Val)) (aggs : List XAgg) (Xs : List Chunk)
+    (hk : ∀ a ∈ aggs, a.kind = .count ∨ a.kind = .rowCount ∨ a.kind = .min ∨ a.kind = .max) :
+    flat (hashAgg ks aggs Xs) = groupAgg ks (aggs.map XAgg.toCall) (flat Xs) := by
+  rw [hashagg_groupwise]
+  unfold groupAgg
+  apply List.map_congr_left
+  intro k _
+  congr 1
+  rw [List.map_map]
+  apply List.map_congr_left
+  intro a ha
+  simp only [Function.comp, XAgg.toCall]
+  exact rowpath_eq_spec a.kind (hk a ha) _
+
+
+/-- `SortAggExecutor` on an input whose rows all carry the same key `k` (one sorted run): one row,
+key followed by the row-path values. -/
+theorem sortagg_one_run (ks : List (Row → Val)) (aggs : List XAgg) (Xs : List Chunk) (k : List Val)
+    (r : Row) (rs : List Row) (hX : flat Xs = r :: rs) (hk : ∀ x ∈ r :: rs, keyOf ks x = k) :
+    flat (sortAgg ks aggs Xs) = [k ++ aggs.map (fun a => rowPathVal a.kind ((r :: rs).map a.arg))] := by
+  unfold sortAgg
+  rw [flat_emit, hX]
+  have key : ∀ (X : List Row) (g : XAgg → AggState), (∀ x ∈ X, keyOf ks x = k) →
+      saLoop ks aggs X (some k) (aggs.map g) =
+        [k ++ (aggs.map (fun a => (X.map a.arg).foldl (aggAppend a.kind) (g a))).map AggState.result] := by
+    intro X
+    induction X with
+    | nil => intro g _; simp [saLoop]
+    | cons x xs ih =>
+      intro g h
+      unfold saLoop
+      have hx : keyOf ks x = k := h x List.mem_cons_self
+      simp only [hx, beq_self_eq_true, if_true]
+      rw [appendRow_map, ih _ (fun y hy => h y (List.mem_cons_of_mem _ hy))]
+      simp [List.foldl_cons]
+  unfold saLoop
+  have hr : keyOf ks r = k := hk r List.mem_cons_self
+  have hne : ((none : Option (List Val)) == some (keyOf ks r)) = false := rfl
+  simp only [hne, Bool.false_eq_true, if_false, List.nil_append]
+  unfold initStates
+  rw [appendRow_map, hr]
+  have := key rs (fun a => aggAppend a.kind (initAgg a.kind) (a.arg r)) (fun y hy => hk y (List.mem_cons_of_mem _ hy))
+  rw [this]
+  simp [rowPathVal, List.map_map, Function.comp]
+
+theorem dedup_all_eq {α} [BEq α] [LawfulBEq α] (k : α) (xs : List α) (h : ∀ x ∈ xs, x = k) (hne : xs ≠ []) :
+    dedup xs = [k] := by
+  induction xs with
+  | nil => exact absurd rfl hne
+  | cons x xs ih =>
+    have hx : x = k := h x List.mem_cons_self
+    subst hx
+    simp only [dedup]
+    congr 1
+    rw [List.filter_eq_nil_iff]
+    intro y hy
+    have : y = x := h y (List.mem_cons_of_mem _ ((mem_dedup xs y).mp hy))
+    simp [this]
+
+/-- `hashagg_eq_sortagg` for one run: on an input that is a single group both executors return the
+same row.  (General statement: see docs — what is missing is the decomposition of a sorted input
+into its runs.) -/
+theorem hashagg_eq_sortagg_one_run (ks : List (Row → Val)) (aggs : List XAgg) (Xs : List Chunk) (k : List Val)
+    (r : Row) (rs : List Row) (hX : flat Xs = r :: rs) (hk : ∀ x ∈ r :: rs, keyOf ks x = k) :
+    flat (hashAgg ks aggs Xs) = flat (sortAgg ks aggs Xs) := by
+  rw [sortagg_one_run ks aggs Xs k r rs hX hk, hashagg_groupwise, hX]
+  have hd : dedup ((r :: rs).map (keyOf ks)) = [k] := by
+    apply dedup_all_eq
+    · intro x hx
+      obtain ⟨y, hy, rfl⟩ := List.mem_map.mp hx
+      exact hk y hy
+    · simp
+  rw [hd]
+  simp only [List.map_cons, List.map_nil]
+  congr 3
+  funext a
+  congr 2
+  unfold groupRows
+  rw [List.filter_eq_self.mpr]
+  · rfl
+  · intro x hx; rw [hk x hx]; exact BEq.rfl
+
+
 end RlModel
